@@ -44,9 +44,10 @@ class LocalFileHandler(abc.FileHandler):
             raise RuntimeError(
                 f"File already written in this transaction: {normpath}"
             )
-        self.__transaction.add(normpath)
         tmppath = _tmpname(normpath)
-        return (self.path / tmppath).open("wb")
+        file = (self.path / tmppath).open("wb")
+        self.__transaction.add(normpath)
+        return file
 
     @contextlib.contextmanager
     def write_transaction(
@@ -80,15 +81,19 @@ class LocalFileHandler(abc.FileHandler):
                 dry_run = True
                 raise
             finally:
-                for file in self.__transaction:
-                    tmpname = _tmpname(file)
-                    if dry_run:
-                        LOGGER.debug("Removing temporary file %s", tmpname)
-                        (self.path / tmpname).unlink()
-                    else:
-                        LOGGER.debug("Committing file %s to %s", tmpname, file)
-                        (self.path / tmpname).replace(self.path / file)
-                self.__transaction = None
+                try:
+                    for file in self.__transaction:
+                        tmpname = _tmpname(file)
+                        if dry_run:
+                            LOGGER.debug("Removing temporary file %s", tmpname)
+                            (self.path / tmpname).unlink()
+                        else:
+                            LOGGER.debug(
+                                "Committing file %s to %s", tmpname, file
+                            )
+                            (self.path / tmpname).replace(self.path / file)
+                finally:
+                    self.__transaction = None
 
     @property
     def rootdir(self) -> LocalFilePath:
